@@ -803,7 +803,10 @@ where
         }))
     }
 
-    fn poll_close(mut self: Pin<&mut Self>, _cx: &mut Context) -> Poll<Result<(), Self::Error>> {
+    fn poll_close(mut self: Pin<&mut Self>, cx: &mut Context) -> Poll<Result<(), Self::Error>> {
+        // Closing flushes: the outcome of the value sent last must not be lost.
+        ready!(self.as_mut().poll_flush(cx))?;
+
         self.tx = None;
         self.permit = None;
         self.reserve = None;
